@@ -525,6 +525,10 @@ def modifyNth (l : List α) (i : Nat) (f : α → α) : List α :=
   | x :: xs, 0 => f x :: xs
   | x :: xs, k+1 => x :: modifyNth xs k f
 
+/-- what one contained lone hit does to its peak: area, per-channel area and one waveform sample grow by `a` -/
+def loneUpdate (a : Rat) (ch idx : Nat) (p : Peak) : Peak :=
+  { p with area := p.area + a, apc := addIdx p.apc ch a, data := addIdx p.data idx a }
+
 /-- the loop of `_add_lone_hits` (sum waveform only) -/
 def addLoneLoop (toPe : List Rat) : List (Option Nat × Hit) → List Peak → Except Err (List Peak)
   | [], peaks => .ok peaks
@@ -539,8 +543,7 @@ def addLoneLoop (toPe : List Rat) : List (Option Nat × Hit) → List Peak → E
         let index := Int.fdiv (lh.time - p.time) p.dt
         if index < 0 ∨ index > p.data.length then .error .valueError
         else
-          addLoneLoop toPe rest (modifyNth peaks i fun p =>
-            { p with area := p.area + a, apc := addIdx p.apc lh.channel a, data := addIdx p.data index.toNat a })
+          addLoneLoop toPe rest (modifyNth peaks i (loneUpdate a lh.channel index.toNat))
 
 def sortedInts : List Int → Bool
   | a :: b :: rest => decide (a ≤ b) && sortedInts (b :: rest)
